@@ -13,7 +13,7 @@ use rust_dsymbols::dsyms::PartialDSym;
 use rust_dsymbols::fundamental_group::{fundamental_group, inner_edges, FundamentalGroup};
 use std::collections::HashSet;
 use std::panic::{catch_unwind, AssertUnwindSafe};
-use verif_harness::dsgen::{all_vs, dsets, random_dset, random_perm1, random_vs, Tab};
+use verif_harness::dsgen::{all_vs, involutions, random_dset, random_perm1, random_vs, Tab};
 use verif_harness::{Ctx, Rng};
 
 fn enc_word(w: &rust_dsymbols::fpgroups::free_words::FreeWord) -> String {
@@ -53,54 +53,59 @@ fn enc_fg(g: &FundamentalGroup) -> String {
 
 struct Plan {
     quick: bool,
+    /// symbols already emitted by the non-exhaustive generators (covers, renumberings, seeded)
     seen: HashSet<Tab>,
+    /// running number of `fg` cases, for the deterministic 1-in-8 sample that gets index 4
+    count: u64,
 }
 
 /// index bound for the subgroup-class oracle, from the number of generators the
 /// implementation uses (a preview run; the observed call is made again inside the case)
-fn kmax_for(ngens: usize, size: usize, quick: bool) -> usize {
+fn kmax_for(ngens: usize, size: usize, quick: bool, sampled: bool) -> usize {
     if size > 48 {
         return 2;
     }
-    if quick {
-        match ngens {
-            0..=3 => 3,
-            4..=5 => 3,
-            6..=10 => 2,
-            _ => 2,
-        }
-    } else {
-        match ngens {
-            0..=3 => 4,
-            4..=5 => 4,
-            6..=7 => 3,
-            _ => 2,
-        }
+    match ngens {
+        0..=3 => 4,
+        4..=5 => if !quick && sampled { 4 } else { 3 },
+        6..=7 => 3,
+        _ => 2,
     }
 }
 
-fn fg_case(ctx: &mut Ctx, plan: &mut Plan, t: &Tab, kind: &str) {
-    if !plan.seen.insert(t.clone()) {
+fn fg_case(ctx: &mut Ctx, plan: &mut Plan, t: &Tab, kind: &str, dedupe: bool) {
+    if dedupe && !plan.seen.insert(t.clone()) {
         return;
     }
-    let ds: PartialDSym = t.to_partial_dsym();
-    if !ctx.peek_mine() {
-        // the `fg` case belongs to another shard; the `inner` case may still be ours
-        ctx.skip();
-        inner_case(ctx, t, &ds, kind);
-        return;
+    let k = plan.count;
+    plan.count += 1;
+    // two cases per symbol (`fg`, `inner`); their order alternates in blocks so that the
+    // expensive `fg` cases are spread over all shards
+    let half = (ctx.nshards as u64 / 2).max(1);
+    let swap = (k / half) % 2 == 1;
+    let mut ds: Option<PartialDSym> = None;
+    for step in 0..2 {
+        let is_fg = (step == 0) != swap;
+        if !ctx.peek_mine() {
+            ctx.skip();
+            continue;
+        }
+        let ds = ds.get_or_insert_with(|| t.to_partial_dsym());
+        if is_fg {
+            let preview = catch_unwind(AssertUnwindSafe(|| fundamental_group(ds).nr_generators())).unwrap_or(0);
+            let kmax = kmax_for(preview, t.size, plan.quick, k % 8 == 0);
+            let tclimit = if t.dim == 3 { if plan.quick { 2000 } else { 6000 } } else { 0 };
+            let sz = size_bucket(t.size);
+            let gb = match preview {
+                0..=5 => format!("gens={}", preview),
+                _ => "gens=6+".to_string(),
+            };
+            let tags = format!("nt {} dim={} {} {} idx<={}", kind, t.dim, sz, gb, kmax);
+            ctx.case("fg", &tags, || format!("{} {} {}", kmax, tclimit, t.enc()), || enc_fg(&fundamental_group(ds)));
+        } else {
+            inner_case(ctx, t, ds, kind);
+        }
     }
-    let preview = catch_unwind(AssertUnwindSafe(|| fundamental_group(&ds).nr_generators())).unwrap_or(0);
-    let kmax = kmax_for(preview, t.size, plan.quick);
-    let tclimit = if t.dim == 3 { if plan.quick { 2000 } else { 6000 } } else { 0 };
-    let sz = size_bucket(t.size);
-    let gb = match preview {
-        0..=5 => format!("gens={}", preview),
-        _ => "gens=6+".to_string(),
-    };
-    let tags = format!("nt {} dim={} {} {} idx<={}", kind, t.dim, sz, gb, kmax);
-    ctx.case("fg", &tags, || format!("{} {} {}", kmax, tclimit, t.enc()), || enc_fg(&fundamental_group(&ds)));
-    inner_case(ctx, t, &ds, kind);
 }
 
 fn size_bucket(size: usize) -> String {
@@ -123,15 +128,64 @@ fn inner_case(ctx: &mut Ctx, t: &Tab, ds: &PartialDSym, kind: &str) {
     });
 }
 
+/// every (dim+1)-tuple of involutions on 1..=n that is a connected complete D-set with
+/// commuting far operations, streamed (same order as `dsgen::dsets`)
+fn for_each_dset<F: FnMut(&Tab)>(dim: usize, n: usize, mut f: F) {
+    let invs = involutions(n, false);
+    let mut idx = vec![0usize; dim + 1];
+    let mut t = Tab { size: n, dim, op: idx.iter().map(|&k| invs[k].clone()).collect(), v: vec![vec![0; n + 1]; dim] };
+    loop {
+        if t.far_commute() && t.is_connected() {
+            f(&t);
+        }
+        let mut k = 0;
+        loop {
+            if k > dim {
+                return;
+            }
+            idx[k] += 1;
+            if idx[k] < invs.len() {
+                t.op[k] = invs[idx[k]].clone();
+                break;
+            }
+            idx[k] = 0;
+            t.op[k] = invs[0].clone();
+            k += 1;
+        }
+    }
+}
+
+/// all symbols on the D-set `t` with v <= vmax when they are at most `cap`, otherwise all
+/// over {1,2,3} (when at most `cap`) plus `k` seeded assignments over the full range
+fn symbols_on(ctx: &mut Ctx, plan: &mut Plan, rng: &mut Rng, t: &Tab, vmax: usize, cap: f64, k: usize, kind: &str) {
+    let vals: Vec<usize> = (1..=vmax).collect();
+    let norb: usize = (0..t.dim).map(|i| t.orbit_reps2(i).len()).sum();
+    if (vals.len() as f64).powi(norb as i32) <= cap {
+        for s in all_vs(t, &vals) {
+            fg_case(ctx, plan, &s, kind, false);
+        }
+    } else {
+        if vmax > 3 && (3f64).powi(norb as i32) <= cap {
+            for s in all_vs(t, &[1, 2, 3]) {
+                fg_case(ctx, plan, &s, kind, false);
+            }
+        }
+        for _ in 0..k {
+            let s = random_vs(t, rng, &vals);
+            fg_case(ctx, plan, &s, kind, false);
+        }
+    }
+}
+
 fn parse(s: &str) -> Tab {
     Tab::from_dsym(&s.parse::<PartialDSym>().unwrap())
 }
 
 fn renumbered_variants(ctx: &mut Ctx, plan: &mut Plan, t: &Tab, rng: &mut Rng, k: usize, kind: &str) {
-    fg_case(ctx, plan, t, kind);
+    fg_case(ctx, plan, t, kind, true);
     for _ in 0..k {
         let p = random_perm1(rng, t.size);
-        fg_case(ctx, plan, &t.renumbered(&p), kind);
+        fg_case(ctx, plan, &t.renumbered(&p), kind, true);
     }
 }
 
@@ -139,7 +193,7 @@ fn main() {
     let mut ctx = Ctx::from_args();
     let th = ctx.thorough();
     let mut rng = ctx.rng(9);
-    let mut plan = Plan { quick: !th, seen: HashSet::new() };
+    let mut plan = Plan { quick: !th, seen: HashSet::new(), count: 0 };
 
     // (0) the symbols pinned by the library's own tests and the known finite groups
     let pinned = [
@@ -165,57 +219,36 @@ fn main() {
         renumbered_variants(&mut ctx, &mut plan, &t, &mut rng, if t.size > 1 { 2 } else { 0 }, "pinned");
     }
 
-    // (1) every connected complete 2D symbol (all labellings) up to the size bound
-    let (nmax2, vmax2): (usize, usize) = if th { (7, 6) } else { (5, 3) };
-    for n in 1..=nmax2 {
-        let sets = dsets(2, n, true, true, false);
-        for t in &sets {
-            let vals: Vec<usize> = (1..=vmax2).collect();
-            let norb: usize = (0..t.dim).map(|i| t.orbit_reps2(i).len()).sum();
-            let total = (vals.len() as f64).powi(norb as i32);
-            let cap = if th { 40.0 } else { 30.0 };
-            if total <= cap {
-                for s in all_vs(t, &vals) {
-                    fg_case(&mut ctx, &mut plan, &s, "all2d");
-                }
-            } else {
-                // all assignments over {1,2,3} when few, and seeded ones over the full range
-                let small: Vec<usize> = vec![1, 2, 3];
-                if (3f64).powi(norb as i32) <= cap {
-                    for s in all_vs(t, &small) {
-                        fg_case(&mut ctx, &mut plan, &s, "all2d");
-                    }
-                }
-                let k = if th { 6 } else if n <= 3 { 12 } else { 3 };
-                for _ in 0..k {
-                    let s = random_vs(t, &mut rng, &vals);
-                    fg_case(&mut ctx, &mut plan, &s, "all2d");
-                }
+    // (1) every connected complete 2D D-set (all labellings) up to the size bound; beyond it a
+    //     deterministic sample of the labelled D-sets
+    //     (n, vmax, cap on exhaustive v-assignments, seeded assignments, keep 1 D-set in `stride`)
+    let plan2: &[(usize, usize, f64, usize, usize)] = if th {
+        &[(1, 6, 40.0, 6, 1), (2, 6, 40.0, 6, 1), (3, 6, 40.0, 6, 1), (4, 6, 40.0, 6, 1), (5, 6, 40.0, 6, 1),
+          (6, 6, 0.0, 3, 1), (7, 6, 0.0, 1, 1)]
+    } else {
+        &[(1, 3, 30.0, 12, 1), (2, 3, 30.0, 12, 1), (3, 3, 30.0, 12, 1), (4, 3, 30.0, 3, 1), (5, 3, 30.0, 3, 1),
+          (6, 4, 0.0, 1, 1), (7, 4, 0.0, 1, 4)]
+    };
+    for &(n, vmax, cap, k, stride) in plan2 {
+        let mut nr = 0usize;
+        for_each_dset(2, n, |t| {
+            nr += 1;
+            if nr % stride == 0 {
+                symbols_on(&mut ctx, &mut plan, &mut rng, t, vmax, cap, k, "all2d");
             }
-        }
+        });
     }
 
     // (2) 3D
-    let (nmax3, vmax3): (usize, usize) = if th { (3, 5) } else { (2, 3) };
-    for n in 1..=nmax3 {
-        let sets = dsets(3, n, true, true, false);
-        for t in &sets {
-            let vals: Vec<usize> = (1..=vmax3).collect();
-            let norb: usize = (0..t.dim).map(|i| t.orbit_reps2(i).len()).sum();
-            let total = (vals.len() as f64).powi(norb as i32);
-            let cap = if th { 130.0 } else { 30.0 };
-            if total <= cap {
-                for s in all_vs(t, &vals) {
-                    fg_case(&mut ctx, &mut plan, &s, "all3d");
-                }
-            } else {
-                let k = if th { 8 } else { 4 };
-                for _ in 0..k {
-                    let s = random_vs(t, &mut rng, &vals);
-                    fg_case(&mut ctx, &mut plan, &s, "all3d");
-                }
-            }
-        }
+    let plan3: &[(usize, usize, f64, usize)] = if th {
+        &[(1, 5, 130.0, 8), (2, 5, 130.0, 8), (3, 5, 130.0, 8), (4, 5, 0.0, 2), (5, 4, 0.0, 1)]
+    } else {
+        &[(1, 3, 30.0, 4), (2, 3, 30.0, 4), (3, 3, 30.0, 4), (4, 3, 0.0, 1)]
+    };
+    for &(n, vmax, cap, k) in plan3 {
+        for_each_dset(3, n, |t| {
+            symbols_on(&mut ctx, &mut plan, &mut rng, t, vmax, cap, k, "all3d");
+        });
     }
 
     // (3) larger seeded symbols and renumberings
@@ -226,7 +259,7 @@ fn main() {
         if let Some(t) = random_dset(&mut rng, dim, n, true) {
             let vals: &[usize] = if k % 3 == 0 { &[1, 1, 1, 2, 3] } else { &[1, 2, 3, 4, 6] };
             let s = random_vs(&t, &mut rng, vals);
-            fg_case(&mut ctx, &mut plan, &s, "random");
+            fg_case(&mut ctx, &mut plan, &s, "random", true);
         }
     }
 
